@@ -34,11 +34,13 @@ for d in sorted(os.listdir(root)):
     title = lines[0].lstrip('# ').strip()
     need = next((l for l in lines if re.search(r'need(s|ed)?( to manifest)?\b', l, re.I)), '')
     fp, fn = first.get((pid, x)), final.get((pid, x))
-    det = dict(command=f'tools/seedrun.sh {pid} /verif/seeded/{d}/patch.diff  (git -C /repo apply; ./check {pid} quick; git -C /repo checkout -- .; ./check build)',
+    cmd = (f'tools/seedrun.sh {pid} /verif/seeded/{d}/patch.diff  (git -C /repo apply; ./check {pid} quick; git -C /repo checkout -- .; ./check build)' if rnd < 8 else
+           f'side copy (DESIGN.md 10.8): git -C <scratch worktree of /repo> apply /verif/seeded/{d}/patch.diff; VERIF_REPO=<worktree> ./check {pid} quick in a copy of /verif whose harness depends on that worktree; git checkout -- .')
+    det = dict(command=cmd,
                exit=fn['exit'] if fn else None, caught=bool(fn and fn['exit'] == 1), signatures=fn['sigs'] if fn else [], wall_s=fn['wall'] if fn else None,
                first_pass_exit=fp['exit'] if fp else None)
     if fp and fp['exit'] == 0 and fn and fn['exit'] == 1:
-        det['first_pass'] = 'MISSED by the property\'s own check as it was when the change was delivered; generator / sweep / oracle extended afterwards (DESIGN.md section 7, third-round table), no oracle loosened'
+        det['first_pass'] = 'MISSED by the property\'s own check as it was when the change was delivered; generator / sweep / oracle extended afterwards (DESIGN.md section 7, table of that round), no oracle loosened'
     if d in notes_override:
         det['remark'] = notes_override[d]
     meta = dict(property=pid, change=d, round=rnd,
